@@ -45,21 +45,29 @@ def _array_bound(f, K, base_id):
     return None
 
 
-def rule_X7(ctx, files=CODEC_FILES):
+def rule_X7(ctx, files=CODEC_FILES, conv_files=None):
+    """files: where indexes into char buffers / alphabets are examined; conv_files: where float-to-integer
+    conversions are examined (default: the same files)."""
     res = RuleResult('X7', 'every index into a fixed char buffer or a code alphabet in the codecs is proved inside it by an '
                            'interval analysis (ranges established by the throwing guards and clamps), or is left '
-                           'undecided; an index whose attained range leaves the array is a violation')
+                           'undecided; an index whose attained range leaves the array is a violation; no floating value '
+                           'that may be NaN or infinite where it is converted is converted to an integer')
+    conv_files = files if conv_files is None else conv_files
     K = Consts(ctx.prog)
     nidx = 0
     proved = 0
     undecided = 0
     nconv = 0
     for f in sorted(ctx.lib_fns(), key=lambda x: (x.file, x.line)):
-        if not f.cfg or not any(f.file.endswith(x) for x in files):
+        in_idx = any(f.file.endswith(x) for x in files)
+        in_conv = any(f.file.endswith(x) for x in conv_files)
+        if not f.cfg or not (in_idx or in_conv):
             continue
         subs = []
-        has_conv = any(n.get('ck') == 'FloatingToIntegral' for i, n in f.all_nodes())
+        has_conv = in_conv and any(n.get('ck') == 'FloatingToIntegral' for i, n in f.all_nodes())
         for i, n in f.all_nodes():
+            if not in_idx:
+                break
             if n['k'] == 'ArraySubscriptExpr':
                 b = _array_bound(f, K, n['ch'][0])
                 if b is not None and b[2] != 'alphabetset':
@@ -71,6 +79,8 @@ def rule_X7(ctx, files=CODEC_FILES):
         iv = Intervals(ctx, f)
         # X7c: a floating value that may be NaN or infinite is never converted to an integer (undefined behaviour)
         for i, n in f.all_nodes():
+            if not has_conv:
+                break
             if n.get('ck') == 'FloatingToIntegral' and n['k'] in ('ImplicitCastExpr', 'CXXFunctionalCastExpr', 'CStyleCastExpr',
                                                                  'CXXStaticCastExpr'):
                 env = iv.env_at(i)
